@@ -365,3 +365,31 @@ _run0 = run
 def run(ctx, rep, tier):
     _run0(ctx, rep, tier)
     _shared(ctx, rep, tier)
+
+
+def _index_bound_is_length(ctx, rep, tier):
+    """C12.k: what an indexed read of a string yields must not depend on where the string lives. Bytes beyond the current length differ between
+    modes (stale bytes after a delete, freed buffer, caller's memory before the first write), so the bound of a safe read is the length counter."""
+    rep.rule("C12.k", "a safe indexed read of a string is bounded by the string's length counter (bytes beyond it differ between storage modes)")
+    fp = ctx.emit.enumerate("CodegenCtx._generate_code_for_int_expr", classes={"intexpr": "StringRefIntegerExpr"})
+    n = 0
+    for p in fp.paths:
+        if not p.end or p.end[0] != "return" or not isinstance(p.end[1], SStr):
+            continue
+        v = p.valuation()
+        if v.get("F:UNSAFE_STRING_INDEXING") is not False or v.get("intexpr.ref.type == OutputStorageType.STR") is not True:
+            continue        # raw outputs keep their sizeof bound; a reference that is neither str nor raw cannot be constructed (StringRefIntegerExpr.__init__)
+        txt = p.end[1].text()
+        n += 1
+        rep.check("< (long)state->[[intexpr.ref.name]]_counter)" in txt, "C12.k", "CodegenCtx._generate_code_for_int_expr", f"bound is the length counter [{len(txt)} chars]",
+                  f"`{txt[:140]}` bounds the index by the capacity: after `delete s` the old bytes are still read, except when deleting frees the buffer (0) - outputs and conditions then depend on the storage option")
+    if n < 2:
+        raise AnalysisError(f"C12.k: only {n} safe string index paths found")
+
+
+_run_k12 = run
+
+
+def run(ctx, rep, tier):
+    _run_k12(ctx, rep, tier)
+    _index_bound_is_length(ctx, rep, tier)
